@@ -37,6 +37,7 @@ type Worker struct {
 	site     string
 	blocked  bool
 	done     bool
+	Holding  int // locks currently held (maintained by Acquired/Unlocked)
 	Fn       func()
 }
 
@@ -173,10 +174,33 @@ func Always(site string) { handoff(stYield, site) }
 //go:norace
 func Blocked(site string) { handoff(stBlocked, site) }
 
+// Acquired: the worker now holds a lock. This is a switch point: parking a
+// client inside its critical section is what lets the others run into the lock.
+//
+//go:norace
+func Acquired(site string) {
+	if w := cur; w != nil {
+		w.Holding++
+		handoff(stYield, site)
+	}
+}
+
 // Unlocked: the worker released a lock.
 //
 //go:norace
-func Unlocked(site string) { handoff(stUnlock, site) }
+func Unlocked(site string) {
+	if w := cur; w != nil && w.Holding > 0 {
+		w.Holding--
+	}
+	handoff(stUnlock, site)
+}
+
+// HoldsLock reports whether worker id holds a lock (scheduler side only).
+//
+//go:norace
+func (s *Sched) HoldsLock(id int) bool {
+	return id >= 0 && id < len(s.Workers) && s.Workers[id].Holding > 0
+}
 
 //go:norace
 func (w *Worker) body(s *Sched) {
